@@ -69,6 +69,67 @@ func (r res) toResult() *benchfmt.Result {
 	return out
 }
 
+// viaReader: feed the Builder through ONE benchfmt.Reader over a single log (one file name for all blocks) in which
+// the configuration lines change between results, instead of hand-made Results (whose Pos() is empty).
+var viaReader = false
+
+var fileKeys = []string{"goarch", "goos", "exp", "ser", "role", "nh", "dh", "xtra"}
+
+func (r res) cfg() map[string]string {
+	m := map[string]string{"exp": r.exp, "ser": r.ser, "role": r.role, "nh": r.nh, "dh": r.dh, "xtra": r.xtra}
+	for i, k := range tableKeys {
+		if i < len(r.table) {
+			m[k] = r.table[i]
+		}
+	}
+	return m
+}
+
+// logText renders the results, in the given order, as one benchmark log: before every benchmark line only the
+// configuration keys that CHANGED are written (an empty value deletes the key), as in a concatenated log.
+func logText(rs []res, order []int) string {
+	var sb strings.Builder
+	cur := map[string]string{}
+	for _, i := range order {
+		want := rs[i].cfg()
+		for _, k := range fileKeys {
+			if want[k] != cur[k] {
+				fmt.Fprintf(&sb, "%s: %s\n", k, want[k])
+				cur[k] = want[k]
+			}
+		}
+		fmt.Fprintf(&sb, "Benchmark%s 1", rs[i].bench)
+		for j, u := range rs[i].units {
+			fmt.Fprintf(&sb, " %s %s", strconv.FormatFloat(rs[i].vals[j], 'g', -1, 64), u)
+		}
+		sb.WriteByte('\n')
+	}
+	return sb.String()
+}
+
+func addAll(b *benchseries.Builder, rs []res, order []int) {
+	if !viaReader {
+		for _, i := range order {
+			b.Add(rs[i].toResult())
+		}
+		return
+	}
+	rd := benchfmt.NewReader(strings.NewReader(logText(rs, order)), "bench.log")
+	n := 0
+	for rd.Scan() {
+		switch rec := rd.Result().(type) {
+		case *benchfmt.Result:
+			b.Add(rec)
+			n++
+		case *benchfmt.SyntaxError:
+			panic("log does not parse: " + rec.Error())
+		}
+	}
+	if err := rd.Err(); err != nil || n != len(order) {
+		panic(fmt.Sprint("log reading failed: ", err, " results ", n, " of ", len(order)))
+	}
+}
+
 // curFilter is the BuilderOptions.Filter of every Builder made while a case runs (default: keep every unit).
 var curFilter = ".unit:/.*/"
 
@@ -214,9 +275,7 @@ func summariesOf(css []*benchseries.ComparisonSeries) string {
 
 func runSeriesSums(rs []res, order []int, ntable, policy int) (dump, sums string, b *benchseries.Builder) {
 	b = newBuilder(ntable)
-	for _, i := range order {
-		b.Add(rs[i].toResult())
-	}
+	addAll(b, rs, order)
 	var css []*benchseries.ComparisonSeries
 	var err error
 	quiet(func() { css, err = b.AllComparisonSeries(nil, policy) })
@@ -306,9 +365,7 @@ func deterministic(b *benchseries.Builder, policy int) bool {
 //            again from the same Builder: same series and same summaries as before
 func statefulChecks(rs []res, order []int, ntable, policy int) string {
 	b := newBuilder(ntable)
-	for _, i := range order {
-		b.Add(rs[i].toResult())
-	}
+	addAll(b, rs, order)
 	build := func() ([]*benchseries.ComparisonSeries, string) {
 		var css []*benchseries.ComparisonSeries
 		var err error
@@ -735,6 +792,44 @@ func reunit(r *hx.Rand, rs []res) {
 			rs[i].units = append(rs[i].units, unitPool[u])
 			rs[i].vals = append(rs[i].vals, float64(1000*(u+1)+r.Intn(40))+0.5)
 		}
+	}
+}
+
+// readerCases: the same result sets, but fed through one Reader over one log whose configuration lines change
+// between blocks (role, experiment, series stamp, hashes, table keys); units that the Reader does not rescale.
+func readerCases(r *hx.Rand) {
+	defer func() { viaReader = false }()
+	viaReader = true
+	plain := []string{"B/op", "allocs/op", "widgets/op"}
+	fix := func(rs []res) {
+		for i := range rs {
+			for j := range rs[i].units {
+				rs[i].units[j] = plain[j%3]
+			}
+		}
+	}
+	mk := func(bench, role, exp string, v float64) res {
+		return res{table: []string{"amd64", "linux"}, bench: bench, exp: exp, ser: "2020-02-02T00:00:00Z", role: role, nh: "abc", dh: "def", units: []string{"B/op"}, vals: []float64{v}}
+	}
+	// a log with the Tip block first and the Base block second, then a second experiment appended
+	two := []res{mk("Foo", "num", expsA[0], 1), mk("Bar", "num", expsA[0], 2), mk("Foo", "den", expsA[0], 3), mk("Bar", "den", expsA[0], 4),
+		mk("Foo", "num", expsA[4], 5), mk("Foo", "den", expsA[4], 6)}
+	two[4].table = []string{"arm64", "linux"}
+	two[5].table = []string{"arm64", "linux"}
+	for pol := 0; pol < 2; pol++ {
+		seriesCase(two, 2, pol, r, []string{"corpus", "reader", "multiexp", "multitable"})
+	}
+	n := hx.N(40, 600)
+	for i := 0; i < n; i++ {
+		rs, nt, tags := genSeries(r, 2+r.Intn(6))
+		fix(rs)
+		seriesCase(rs, nt, r.Intn(2), r, append(tags, "reader"))
+	}
+	nl := hx.N(10, 150)
+	for i := 0; i < nl; i++ {
+		rs, nt, tags := genSeries(r, 6+r.Intn(20))
+		fix(rs)
+		seriesCase(rs, nt, r.Intn(2), r, append(tags, "reader", "large"))
 	}
 }
 
@@ -1709,6 +1804,7 @@ func main() {
 	// Builder filters selecting a proper subset of the units of a line, not necessarily the leading ones; lines carry
 	// 2-4 units in varying order; every selected unit gets its own table holding exactly ITS measurements
 	filteredCases(r)
+	readerCases(r)
 	nl := hx.N(60, 1000)
 	for i := 0; i < nl; i++ {
 		rs, nt, tags := genSeries(r, 6+r.Intn(20))
